@@ -1238,7 +1238,7 @@ def _is_enclosed_or_line(
         last_col = loc.end_col
 
     for ln in range(last_ln, end_ln):  # tail
-        if not lines[ln].endswith('\\'):
+        if not _re_line_end_cont.match(lines[ln], last_col):  # not just endswith('\\') because a comment can end with a backslash
             if out_lns is None:
                 return False
 
@@ -1246,6 +1246,8 @@ def _is_enclosed_or_line(
                 failed = True
 
                 out_lns.add(ln)
+
+        last_col = 0
 
     if failed:
         return False
